@@ -50,6 +50,12 @@ class Rig:
     def advance(self, dt):
         self.advance_to(self.loop.time() + dt)
 
+    def next_timer(self):
+        """virtual time of the earliest armed timer (None when nothing is armed): lets a harness
+        step from one instant at which something can happen to the next"""
+        due = [h.when() for h in self.loop._scheduled if not h.cancelled()]
+        return min(due) if due else None
+
     @property
     def now(self):
         return self.loop.time()
